@@ -39,6 +39,8 @@ pub enum ImportKind {
     BadSyntax,
     Missing,
     CaughtFailTop,
+    /// a module that runs fine but exports a non-callable `@main`
+    BadMain,
 }
 
 #[derive(Clone, Copy, Debug, PartialEq, Eq, Hash)]
@@ -114,6 +116,7 @@ pub const MODULES: &[(&str, &str)] = &[
     ("cyc_a.koto", "import cyc_b\nexport a = 1\n"),
     ("cyc_b.koto", "import cyc_a\nexport b = 1\n"),
     ("badsyntax.koto", "export q = (1 +\n"),
+    ("badmain.koto", "export v = 5\n@main = 42\n"),
     ("main.koto", "# placeholder for the importing script\n"),
 ];
 
@@ -132,6 +135,7 @@ fn import_script(k: ImportKind) -> &'static str {
         ImportKind::Cycle => "import cyc_a\n1\n",
         ImportKind::BadSyntax => "import badsyntax\n1\n",
         ImportKind::Missing => "import nosuchmodule\n1\n",
+        ImportKind::BadMain => "import badmain\n1\n",
         ImportKind::CaughtFailTop => "r = try\n  import failtop\n  1\ncatch e\n  2\nr\n",
     }
 }
@@ -146,6 +150,7 @@ fn import_error_prefix(k: ImportKind) -> &'static str {
         ImportKind::Cycle => "recursive import of module",
         ImportKind::BadSyntax => "expected expression",
         ImportKind::Missing => "unable to find module 'nosuchmodule'",
+        ImportKind::BadMain => "expected callable function, found Number",
         _ => "",
     }
 }
@@ -357,6 +362,7 @@ pub fn gen_history(seed: u64) -> History {
                 ImportKind::BadSyntax,
                 ImportKind::Missing,
                 ImportKind::CaughtFailTop,
+                ImportKind::BadMain,
             ])),
             19 if with_limit => Op::Spin(*r.pick(&[
                 SpinKind::Top,
@@ -1336,6 +1342,7 @@ pub fn replay(doc: &Value) -> (Option<(String, String)>, u64) {
                     "Cycle" => ImportKind::Cycle,
                     "BadSyntax" => ImportKind::BadSyntax,
                     "Missing" => ImportKind::Missing,
+                    "BadMain" => ImportKind::BadMain,
                     _ => ImportKind::CaughtFailTop,
                 };
                 (Op::Import(k), None)
